@@ -104,18 +104,18 @@ Section LocalLoop.
   Lemma local_adds_sim (es : list exp) (lc : bool) (il : option loc) rest :
     lc = match rev es with ECall _ _ _ _ :: _ => true | _ => false end ->
     forall es_r ns_r ls_r pre st top lastc,
-    es = pre ++ es_r -> length ns_r = length ls_r -> (length es_r <= length ns_r)%nat ->
+    es = pre ++ es_r -> length ns_r = length ls_r ->
     (es_r = [] -> lc = true -> lastc <> RNone) ->
     FRS st (top :: rest) ->
     t_occs (local_adds es_r (combine ns_r ls_r) lastc il st) = t_occs st /\
     FRS (local_adds es_r (combine ns_r ls_r) lastc il st)
         ((rev (combine (combine ns_r ls_r) (le_rec ns_r es_r lc)) ++ top) :: rest).
   Proof.
-    intros Hlc. induction es_r as [|e es' IH]; intros ns_r ls_r pre st top lastc Hes Hlen Hle Hlast Hfr.
+    intros Hlc. induction es_r as [|e es' IH]; intros ns_r ls_r pre st top lastc Hes Hlen Hlast Hfr.
     - cbn [local_adds]. apply (local_rest_sim lc il rest ns_r ls_r st top lastc); [|exact Hfr].
       intros Hr. destruct lc; [|reflexivity]. exfalso. apply (Hlast eq_refl eq_refl).
       destruct lastc; [reflexivity|discriminate..].
-    - destruct ns_r as [|n ns']; [cbn in Hle; lia|].
+    - destruct ns_r as [|n ns']; [cbn [combine local_adds le_rec rev app]; split; [reflexivity|exact Hfr]|].
       destruct ls_r as [|l0 ls']; [discriminate|].
       cbn [combine local_adds le_rec rev].
       set (v := mkV5 n l0 (ref_of_exp e) (refer_empty n e) il (tab_of_exp e)).
@@ -124,7 +124,6 @@ Section LocalLoop.
                    (match e with ECall _ _ _ _ => ref_of_exp e | _ => RNone end)) as [H1 H2].
       + rewrite <- app_assoc. exact Hes.
       + cbn in Hlen. lia.
-      + cbn in Hle. lia.
       + intros He' Hl. subst es'. rewrite Hes, rev_app_distr in Hlc. cbn in Hlc.
         rewrite Hl in Hlc. destruct e; try discriminate Hlc. cbn. intros Hx. discriminate Hx.
       + apply FRS_add; assumption.
@@ -134,23 +133,22 @@ Section LocalLoop.
   Qed.
 
   Lemma local_sim ns ls ats es l :
-    length ns = length ls -> (length es <= length ns)%nat -> Forall (PeSim flv slv reg) es ->
+    length ns = length ls -> Forall (PeSim flv slv reg) es ->
     SimS (tr_stat flv slv (SLocal ns ls ats es l)) (fun nm => cl_stat nm flv slv (SLocal ns ls ats es l))
          (fun en => b_stat flv slv reg (SLocal ns ls ats es l) en).
   Proof.
-    intros Hlen Hle Hsim st seg rest en Exc Hfr Heq.
+    intros Hlen Hsim st seg rest en Exc Hfr Heq.
     set (lc := match rev es with ECall _ _ _ _ :: _ => true | _ => false end).
-    assert (Hlec : (length es <= length (combine ns ls))%nat) by (rewrite combine_length; lia).
     pose proof (SimE_list (fun e => tr_exp flv e) (fun e nm => cl_exp nm flv e) (fun e en => b_exp flv slv reg e en)
                           es Hsim) as HL.
     destruct (HL st (seg :: rest) en Exc Hfr ltac:(discriminate) Heq) as [news [cs [A1 [A2 [A3 A4]]]]].
     destruct (local_adds_sim es lc (init_loc ns ls es l) rest eq_refl es ns ls []
-                             (apply_all (map (fun e => tr_exp flv e) es) st) seg RNone eq_refl Hlen Hle) as [B1 B2].
+                             (apply_all (map (fun e => tr_exp flv e) es) st) seg RNone eq_refl Hlen) as [B1 B2].
     - intros He Hl. subst es. discriminate.
     - exact A2.
     - exists news, cs, (rev (combine (combine ns ls) (le_rec ns es lc)) ++ seg).
       cbn [tr_stat b_stat cl_stat fst snd].
-      pose proof (local_loop_shape (fun e => tr_exp flv e) es (combine ns ls) RNone (init_loc ns ls es l) st Hlec) as Eloop.
+      pose proof (local_loop_shape (fun e => tr_exp flv e) es (combine ns ls) RNone (init_loc ns ls es l) st) as Eloop.
       cbv beta in Eloop.
       unfold tT in Eloop. rewrite Eloop. repeat split.
       + rewrite B1. exact A1.
@@ -159,7 +157,7 @@ Section LocalLoop.
         apply EQ_app. exact Heq.
       + rewrite ccore_app, ccore_decl_pairs, app_nil_r, ccore_local_inits. exact A3.
       + eapply Rc_mono; [|exact A4]. intros nm Hn. cbv beta in Hn |- *.
-        pose proof (cl_local_loop_shape (fun e => tr_exp flv e) (fun e => cl_exp nm flv e) es (combine ns ls) st Hlec) as Ecl.
+        pose proof (cl_local_loop_shape (fun e => tr_exp flv e) (fun e => cl_exp nm flv e) es (combine ns ls) st) as Ecl.
         cbv beta in Ecl. unfold tT, tC in Ecl. rewrite Ecl in Hn. exact Hn.
   Qed.
 End LocalLoop.
